@@ -58,6 +58,10 @@ func init() {
 			"(R7) close frames are written under the same mutex as data frames. " +
 			"It does not decide acceptance of whole output traces by the protocol automata (interleavings of engine events with client messages).",
 		Mutants: []Mutant{
+			{Name: "wrongly typed messages are only logged (reverts part of the F56 fix)", File: c19TwGo, Rule: "C19-R13", Key: "ProtocolGraphQLTransportWSHandler.Handle/undecodable-message-closes-the-connection",
+				Old: "\t\tp.closeConnectionWithReason(NewCloseReason(4400, \"Invalid message\"))\n", New: ""},
+			{Name: "subscribe without id is executed (reverts part of the F56 fix)", File: c19TwGo, Rule: "C19-R13", Key: "ProtocolGraphQLTransportWSHandler.handleSubscribe/start-operation-needs-an-id",
+				Old: "\tif message.Id == \"\" {\n\t\tp.closeConnectionWithReason(NewCloseReason(4400, \"Invalid message: missing id\"))\n\t\treturn nil\n\t}\n\n", New: ""},
 			{Name: "InitFunc skipped for a connection_init without payload (reverts the F42 fix)", File: "execution/subscription/websocket/protocol_graphql_transport_ws.go", Rule: "C19-R12", Key: "ProtocolGraphQLTransportWSHandler.handleInit/ack-only-after-the-init-func",
 				Old: "\tif p.initFunc != nil {\n", New: "\tif p.initFunc != nil && len(payload) > 0 {\n"},
 			{Name: "connected test made before the write lock is taken (reverts part of the F39 fix)", File: "execution/subscription/websocket/client.go", Rule: "C19-R9", Key: "Client.WriteBytesToClient/connected-test-in-the-critical-section-of-the-write",
@@ -405,6 +409,7 @@ func c19LockAnalysis(p *fw.Prog) *fw.LockAnalysis {
 func runC19(r *fw.Run) {
 	defer c19ReadTimeoutStatePair(r)
 	defer c19FramesDecodedWhole(r)
+	defer c19UndecodableMessagesClose4400(r)
 	defer c19InitFuncAlwaysConsulted(r)
 	defer c19NoDataFrameAfterCloseFrame(r)
 	defer c19CompleteOnlyForActiveIds(r)
@@ -2177,4 +2182,83 @@ func c19InitFuncAlwaysConsulted(r *fw.Run) {
 		in.Run(nil)
 	}
 	r.Expect("C19-R12", "connection_ack writes in handleInit", n, 2)
+}
+
+// c19UndecodableMessagesClose4400 (R13): graphql-transport-ws — "receiving a message of a type or format which is not
+// specified in this document will result in an immediate socket closure with the event 4400". Decoding fails in more
+// ways than a JSON syntax error (valid JSON of the wrong shape: `{"type":1}`, `[]`, a subscribe payload that is not an
+// object). In the transport-ws handler every exit of Handle and handleSubscribe that lies on the failure edge of a
+// decoding call (reader.Read, reader.DeserializeSubscribePayload) has closed the connection
+// (closeConnectionWithReason); and the operation is started (Engine.StartOperation) only where the message id is known to
+// be non-empty — an id-less subscribe would be executed and answered with id-less next/complete messages.
+func c19UndecodableMessagesClose4400(r *fw.Run) {
+	p := r.Prog
+	r.Rule("C19-R13", "in the graphql-transport-ws handler every exit on the failure edge of a message-decoding call has closed the connection with a close reason, and StartOperation is reached only with a non-empty message id")
+	nExits, nStarts := 0, 0
+	for _, name := range []string{c19TwHandler + ".Handle", c19TwHandler + ".handleSubscribe"} {
+		fi := p.Func("websocket", name)
+		if fi == nil {
+			r.Error("C19-R13: %s not found", name)
+			continue
+		}
+		info := fi.Info()
+		isDecodeErr := func(o types.Object, pos token.Pos) bool {
+			return fw.VarFromCall(fi, o, pos, "websocket", "GraphQLTransportWSMessageReader.Read", 1) || fw.VarFromCall(fi, o, pos, "websocket", "GraphQLTransportWSMessageReader.DeserializeSubscribePayload", 1)
+		}
+		ord := 0
+		in := fw.NewInterp(fi)
+		in.H = fw.Hooks{
+			Cond: func(e ast.Expr, branch bool, st *fw.State) {
+				a := fw.Atom(info, e, branch)
+				if a.Kind == "NonNil" {
+					if id, ok := ast.Unparen(a.X).(*ast.Ident); ok && isDecodeErr(info.Uses[id], id.Pos()) {
+						st.Set("decode-failed")
+					}
+				}
+				if a.Kind == "Nil" {
+					if id, ok := ast.Unparen(a.X).(*ast.Ident); ok && isDecodeErr(info.Uses[id], id.Pos()) {
+						st.Kill("decode-failed")
+					}
+				}
+				// message.Id != "" / len(message.Id) > 0
+				if (a.Kind == "Ne" || a.Kind == "NonEmpty") && fw.IsFieldSel(info, a.X, "websocket", "GraphQLTransportWSMessage", "Id") {
+					if a.Kind == "NonEmpty" {
+						st.Set("has-id")
+					} else if v, isC := fw.ConstVal(info, a.Y); isC && v == `""` {
+						st.Set("has-id")
+					}
+				}
+			},
+			Node: func(nd ast.Node, st *fw.State) {
+				c, ok := nd.(*ast.CallExpr)
+				if !ok {
+					return
+				}
+				if fw.CallIs(info, c, "websocket", c19TwHandler+".closeConnectionWithReason") {
+					st.Set("closed")
+				}
+				if in.Final() && fw.CallIs(info, c, "subscription", "Engine.StartOperation") {
+					nStarts++
+					r.Check(st.Must("has-id"), "C19-R13", fi.Name()+"/start-operation-needs-an-id", p.Pos(c.Pos()), "StartOperation in "+fi.Name()+" is reached only where the message id is known to be non-empty",
+						"a subscribe message without id is executed: the server answers with `next` and `complete` messages that carry no id — not messages of the protocol — instead of closing with 4400")
+				}
+			},
+			Exit: func(ret *ast.ReturnStmt, lit *ast.FuncLit, st *fw.State) {
+				if lit != nil || !in.Final() || !st.Must("decode-failed") {
+					return
+				}
+				nExits++
+				ord++
+				pos := fi.Decl.End()
+				if ret != nil {
+					pos = ret.Pos()
+				}
+				r.Check(st.Must("closed"), "C19-R13", fi.Name()+"/undecodable-message-closes-the-connection#"+itoa(ord), p.Pos(pos), "this exit of "+fi.Name()+" on the failure edge of message decoding has closed the connection",
+					"a message that cannot be decoded (valid JSON of the wrong shape: `{\"type\":1}`, `[]`, `\"ping\"`, a numeric id, a subscribe payload that is not an object) is only logged: the connection stays open instead of being closed with 4400")
+			},
+		}
+		in.Run(nil)
+	}
+	r.Expect("C19-R13", "exits on the failure edge of message decoding", nExits, 2)
+	r.Expect("C19-R13", "StartOperation calls of the transport-ws handler", nStarts, 1)
 }
